@@ -1,6 +1,7 @@
 package keys
 
 import (
+	"math"
 	"pgregory.net/rapid"
 
 	"github.com/tink-crypto/tink-go/v2/aead/aesctrhmac"
@@ -387,7 +388,7 @@ func drawHkdfPrf(t *rapid.T, label string, usableOnly bool) (builder, string, ui
 	case 1:
 		s.salt = []byte{}
 	default:
-		s.salt = gen.BytesN(t, label+"_salt", rapid.IntRange(1, 40).Draw(t, label+"_salt_len"))
+		s.salt = gen.BytesN(t, label+"_salt", ceiling(t, label+"_salt_len", rapid.IntRange(1, 40).Draw(t, label+"_salt_len"), HugeSaltSize))
 	}
 	s.key = gen.BytesN(t, label+"_key", s.keySize)
 	return s.build, tk.NoPrefix, 0
@@ -459,6 +460,9 @@ type streamSpec struct {
 
 var streamHashes = []hashSpec{hashSHA1, hashSHA256, hashSHA512}
 
+// MaxUsableSegmentSize: streaming keys with a larger segment size are FailsTooLarge.
+const MaxUsableSegmentSize = 1 << 20
+
 func drawStreamCommon(t *rapid.T, label string, usableOnly bool, s *streamSpec) {
 	s.derived = rapid.SampledFrom([]int{16, 32}).Draw(t, label+"_derived_key_size")
 	usableSizes := within([]int{16, 32}, s.derived, 64)
@@ -483,10 +487,22 @@ func drawSegmentSize(t *rapid.T, label string, min int) int {
 	}
 }
 
+// hugeSegment: for unusable-allowed draws, one case in forty gets a segment size at int32's ceiling
+// (math.MaxInt32 - 0..2).  Such a key is marked FailsTooLarge: parameters and serialization only.
+func hugeSegment(t *rapid.T, label string, usableOnly bool, size int) int {
+	if usableOnly {
+		return size
+	}
+	if rapid.IntRange(0, 39).Draw(t, label+"_segment_size_ceiling") == 0 {
+		return math.MaxInt32 - rapid.IntRange(0, 2).Draw(t, label+"_segment_size_below_max")
+	}
+	return size
+}
+
 func drawAesGcmHkdfStreaming(t *rapid.T, label string, usableOnly bool) (builder, string, uint32) {
 	var s streamSpec
 	drawStreamCommon(t, label, usableOnly, &s)
-	s.segmentSize = drawSegmentSize(t, label, s.derived+25)
+	s.segmentSize = hugeSegment(t, label, usableOnly, drawSegmentSize(t, label, s.derived+25))
 	s.key = gen.BytesN(t, label+"_key", s.keySize)
 	return s.build, tk.NoPrefix, 0
 }
@@ -496,7 +512,7 @@ func drawAesCtrHmacStreaming(t *rapid.T, label string, usableOnly bool) (builder
 	drawStreamCommon(t, label, usableOnly, &s)
 	s.hmacHash = rapid.SampledFrom(streamHashes).Draw(t, label+"_hmac_hash")
 	s.tagSize = pick(t, label+"_tag_size", 50, within([]int{10, 16, 20, 32, 64, s.hmacHash.digest}, 10, s.hmacHash.digest), 10, s.hmacHash.digest)
-	s.segmentSize = drawSegmentSize(t, label, s.derived+8+s.tagSize+1)
+	s.segmentSize = hugeSegment(t, label, usableOnly, drawSegmentSize(t, label, s.derived+8+s.tagSize+1))
 	s.key = gen.BytesN(t, label+"_key", s.keySize)
 	return s.build, tk.NoPrefix, 0
 }
@@ -534,6 +550,9 @@ func (s streamSpec) build(variant string, id uint32) (*Info, error) {
 		return nil, err
 	}
 	i.Usable = s.keySize == 16 || s.keySize == 32
+	if i.Usable && s.segmentSize > MaxUsableSegmentSize {
+		i.Usable, i.FailsAt = false, FailsTooLarge
+	}
 	i.Secrets = secrets(s.key)
 	f := i.Fields
 	f["key_size"], f["derived_key_size"], f["hkdf_hash"], f["segment_size"], f["key_value"] = s.keySize, s.derived, s.hkdfHash.name, s.segmentSize, clone(s.key)
